@@ -1,5 +1,8 @@
 SPECIFICATION TraceSpec
-CONSTANT MaxHeaders = 1
+CONSTANTS
+  MaxHeaders = 1
+  Protos = {"HTTP/1.1"}
+  LowerBeforeLookup = FALSE
 INVARIANT Verdicts
 POSTCONDITION Accepted
 CHECK_DEADLOCK FALSE
